@@ -55,10 +55,38 @@ def _uid(x):
     return x
 
 
+def _failing(after, impl):
+    """A fresh callable that works ``after`` times and then fails (the tool's own callable raising mid-way)."""
+    state = {"n": 0}
+
+    def fn(*args):
+        state["n"] += 1
+        if state["n"] > after:
+            raise LookupError("the tool's callable failed")
+        return impl(*args)
+
+    return fn
+
+
 # name -> (kind, async factory(handle), sync factory(iterator))
 TOOLS = {
+    # tools whose own callable fails while they hold the handle: whatever they do about it, the underlying stays open
+    "filter_fail": ("iter", lambda h: A.filter(_failing(1, lambda x: True), h), lambda it: filter(_failing(1, lambda x: True), it)),
+    "takewhile_fail": ("iter", lambda h: A.takewhile(_failing(2, lambda x: True), h),
+                       lambda it: itertools.takewhile(_failing(2, lambda x: True), it)),
+    "map_fail": ("iter", lambda h: A.map(_failing(1, _mk), h), lambda it: map(_failing(1, _mk), it)),
+    "accumulate_fail": ("iter", lambda h: A.accumulate(h, _failing(1, lambda a, b: b), initial=Item(0, "acc")),
+                        lambda it: itertools.accumulate(it, _failing(1, lambda a, b: b), initial=Item(0, "acc"))),
+    "reduce_fail": ("agg", lambda h: A.reduce(_failing(1, lambda a, b: a), h, None),
+                    lambda it: __import__("functools").reduce(_failing(1, lambda a, b: a), it, None)),
+    "min_key_fail": ("agg", lambda h: A.min(h, key=_failing(1, lambda x: x.key), default=None),
+                     lambda it: min(it, key=_failing(1, lambda x: x.key), default=None)),
+
     "islice2": ("iter", lambda h: A.islice(h, 2), lambda it: itertools.islice(it, 2)),
     "islice_1_4_2": ("iter", lambda h: A.islice(h, 1, 4, 2), lambda it: itertools.islice(it, 1, 4, 2)),
+    # a stop that is not aligned with the step: the trailing skipped items are consumed all the same
+    "islice_0_5_3": ("iter", lambda h: A.islice(h, 0, 5, 3), lambda it: itertools.islice(it, 0, 5, 3)),
+    "islice_1_6_4": ("iter", lambda h: A.islice(h, 1, 6, 4), lambda it: itertools.islice(it, 1, 6, 4)),
     "takewhile": ("iter", lambda h: A.takewhile(_pred_lt2, h), lambda it: itertools.takewhile(_pred_lt2, it)),
     "dropwhile": ("iter", lambda h: A.dropwhile(_pred_lt2, h), lambda it: itertools.dropwhile(_pred_lt2, it)),
     "filter": ("iter", lambda h: A.filter(_pred_lt2, h), lambda it: filter(_pred_lt2, it)),
@@ -229,6 +257,8 @@ def run_history(case, stats, scoped=None):
                 return _uid(await obj.__anext__())
             except StopAsyncIteration:
                 return STOP
+            except LookupError as exc:
+                return ("raised", type(exc).__name__, str(exc))
 
         def model_view(h):
             if state[h] == "closed":
@@ -369,10 +399,12 @@ def run_history(case, stats, scoped=None):
                             want = _uid(next(sit))
                         except StopIteration:
                             want = STOP
+                        except LookupError as exc:
+                            want = ("raised", type(exc).__name__, str(exc))
                         if got != want:
                             fail("borrow/tool-items", f"op {n} {op}: tool gave {got}, stdlib on the shared iterator {want}")
                             return
-                        if got == STOP:
+                        if got == STOP or (isinstance(got, tuple) and got[:1] == ("raised",)):
                             ended = True
                             break
                     if ending == "abandon":
